@@ -267,13 +267,18 @@ void checkOracles(const Desc& d, const Obs& o, RunResult& r) {
     size_t N = testGroups.size();
     Vec<MFilter> gf, nf; collectFilters(d, gf, nf);
     Vec<char> selected(N, 0), runs(N, 0);
-    size_t nSel = 0, nRun = 0, nIgn = 0;
+    size_t nSel = 0;
     for (size_t t = 0; t < N; t++) {
         const Group& T = d.groups[(size_t)testGroups[t]];
         selected[t] = selectedBy(gf, T.sarg(0)) && selectedBy(nf, T.sarg(1));
-        if (selected[t]) { nSel++; if (T.arg(0) && !c.runIgnored) nIgn++; else { runs[t] = 1; nRun++; } }
+        if (selected[t]) nSel++;
     }
     int reps = c.repeat > 0 ? c.repeat : 1;
+    // run-ignored may be switched on between two repetitions (registry API only): counts per repetition
+    int lateRi = (int)d.pi("late_ri", 0);
+    Vec<size_t> nRunAt((size_t)reps + 1, 0), nIgnAt((size_t)reps + 1, 0);
+    for (int rp = 0; rp <= reps; rp++) { bool ri = c.runIgnored && rp >= lateRi; for (size_t t = 0; t < N; t++) if (selected[t]) { if (d.groups[(size_t)testGroups[t]].arg(0) && !ri) nIgnAt[(size_t)rp]++; else nRunAt[(size_t)rp]++; } }
+    size_t nRun = nRunAt[0], nIgn = nIgnAt[0];
     bool consoleish = c.output != 3 || c.verbose > 0;     // a console stream exists (TeamCity extends the console output)
     bool pureConsole = c.output != 3 && c.output != 4;
 
@@ -296,6 +301,8 @@ void checkOracles(const Desc& d, const Obs& o, RunResult& r) {
 
     for (size_t rp = 0; rp < repsSeen.size(); rp++) {
         size_t b = repsSeen[rp].begin, e = repsSeen[rp].end;
+        {   bool ri = c.runIgnored && (int)rp >= lateRi; size_t k = rp < nRunAt.size() ? rp : nRunAt.size() - 1; nRun = nRunAt[k]; nIgn = nIgnAt[k];
+            for (size_t t = 0; t < N; t++) runs[t] = selected[t] && !(d.groups[(size_t)testGroups[t]].arg(0) && !ri); }
         // -------- structure: groups and tests (C02)
         Vec<Started> started; Vec<int> startCount(N, 0);
         int groupOpen = 0; int groupTest = -1; bool structureOk = true; size_t groupStarts = 0, groupEnds = 0;
@@ -519,7 +526,8 @@ void checkOracles(const Desc& d, const Obs& o, RunResult& r) {
         for (size_t i = 0; i + 2 < o.procLog.size(); i += 3) { if (o.procLog[i + 1] == 4) hangs++; if (o.procLog[i + 1] == 1) forks++; if (o.procLog[i + 1] == 3 && o.procLog[i + 2] == 18) conts++; }
         for (size_t i = 0; i < o.fails.size(); i++) if (o.fails[i].msg.find("Stopped in separate process") != Str::npos) stopsSeen++;
         if (hangs) r.fail("C11", "bounded_wait", sigOf("what", "waitpid called again after the child had terminated"), sfmt("%zu tests kept waiting after their terminal status", hangs));
-        if (forks != nRun * repsSeen.size()) r.fail("C11", "remaining_tests", sigOf("what", "fork count"), sfmt("%zu forks for %zu executed tests x %zu repetitions", forks, nRun, repsSeen.size()));
+        { size_t wantForks = 0; for (size_t q = 0; q < repsSeen.size(); q++) wantForks += nRunAt[q < nRunAt.size() ? q : nRunAt.size() - 1];
+          if (forks != wantForks) r.fail("C11", "remaining_tests", sigOf("what", "fork count"), sfmt("%zu forks for %zu executed tests over %zu repetitions", forks, wantForks, repsSeen.size())); }
         if (conts != stopsSeen) r.fail("C11", "continue_after_stop", sfmt("%zu stop failures, %zu SIGCONT sent", stopsSeen, conts));
         bool anyFail = !o.fails.empty();
         if (anyFail && o.ret == 0) r.fail("C11", "overall_failure", sigOf("what", "run reported OK although a child event was recorded"), sfmt("return value %d with %zu failures", o.ret, o.fails.size()));
@@ -552,6 +560,7 @@ void checkOracles(const Desc& d, const Obs& o, RunResult& r) {
         if (ps.size() != o.sums.size()) r.fail("C01", "summary_text", sigOf("what", "count"), sfmt("%zu summary lines parsed, %zu repetitions", ps.size(), o.sums.size()));
         for (size_t i = 0; i < ps.size() && i < o.sums.size(); i++) {
             const Summary& s = o.sums[i]; const ParsedSummary& p = ps[i];
+            nRun = nRunAt[i < nRunAt.size() ? i : nRunAt.size() - 1]; nIgn = nIgnAt[i < nIgnAt.size() ? i : nIgnAt.size() - 1];
             bool modelOk = !(s.failures != 0 || (nRun + nIgn == 0));
             if (p.okWord != modelOk) r.fail("C01", "summary_text", sigOf("what", "OK/Errors"), sfmt("rep %zu prints %s but model says %s", i, p.okWord ? "OK" : "Errors", modelOk ? "OK" : "Errors"));
             if ((size_t)p.tests != N || (size_t)p.run != nRun || (size_t)p.ignored != nIgn || (size_t)p.filtered != N - nSel || (size_t)p.checks != s.checks) r.fail("C01", "summary_text", sigOf("what", "counts"), sfmt("rep %zu summary %ld/%ld/%ld/%ld/%ld, model %zu/%zu/%zu/%zu/%zu", i, p.tests, p.run, p.checks, p.ignored, p.filtered, N, nRun, s.checks, nIgn, N - nSel));
